@@ -369,9 +369,15 @@ func (sc *SubCache[EntityT, ExcerptT, CacheT]) Resolve(id entity.Id) (CacheT, er
 		return *new(CacheT), err
 	}
 
-	cached = sc.makeCached(e, sc.entityUpdated)
-
 	sc.mu.Lock()
+	// another call may have loaded the same entity in the meantime: everyone has to get the same
+	// instance, or the edits made through one are overwritten by those made through the other
+	if cached, ok := sc.cached[id]; ok {
+		sc.lru.Get(id)
+		sc.mu.Unlock()
+		return cached, nil
+	}
+	cached = sc.makeCached(e, sc.entityUpdated)
 	sc.cached[id] = cached
 	sc.lru.Add(id)
 	sc.mu.Unlock()
